@@ -686,6 +686,11 @@ BODIES = [
     ("RPFC_locate", "StringDictionaryRPFC.cpp", "StringDictionaryRPFC::locate", 0),
     ("RPFC_extract", "StringDictionaryRPFC.cpp", "StringDictionaryRPFC::extract", 0),
     ("RPFC_locatePrefix", "StringDictionaryRPFC.cpp", "StringDictionaryRPFC::locatePrefix", 0),
+    ("RPFC_extractPrefix", "StringDictionaryRPFC.cpp", "StringDictionaryRPFC::extractPrefix", 0),
+    ("RPFC_extractTable", "StringDictionaryRPFC.cpp", "StringDictionaryRPFC::extractTable", 0),
+    ("RPFCIter_ctor", "iterators/IteratorDictStringRPFC.h", "IteratorDictStringRPFC", 0),
+    ("RPFCIter_next", "iterators/IteratorDictStringRPFC.h", "next", 0),
+    ("RPFCIter_decodeNext", "iterators/IteratorDictStringRPFC.h", "decodeNext", 0),
     ("RPFC_locateBoundaryBuckets", "StringDictionaryRPFC.cpp", "StringDictionaryRPFC::locateBoundaryBuckets", 0),
     ("RPFC_searchPrefix", "StringDictionaryRPFC.cpp", "StringDictionaryRPFC::searchPrefix", 0),
     ("RPFC_searchDistinctPrefix", "StringDictionaryRPFC.cpp", "StringDictionaryRPFC::searchDistinctPrefix", 0),
